@@ -262,7 +262,13 @@ def compare_strict(rn, rs, info):
 
 @st.composite
 def case_strategy(draw):
-    mode = draw(st.sampled_from(["plain", "plain", "yield", "yield", "eof", "lexer", "yield-tail", "break-loop"]))
+    mode = draw(st.sampled_from(["plain", "plain", "yield", "yield", "eof", "lexer", "yield-tail", "break-loop", "yield-overflow"]))
+    if mode == "yield-overflow":
+        # an append that may overflow and a yield on the same transition: pointer and codes when the out-of-space handler takes over
+        prog, datas = draw(gen.yield_overflow_program())
+        cuts = draw(st.lists(st.lists(st.integers(1, 12), min_size=1, max_size=4), min_size=1, max_size=3))
+        k = draw(st.integers(0, len(datas) - 6))
+        return prog, list(prog.argv) + draw(options.repr_options(indirect=True)), datas[k:k + 6], cuts
     if mode == "break-loop":
         # a loop left by a break (seven positions) with more input in the same chunk: codes and pointer under every chunking
         prog, datas = draw(gen.break_loop_program())
